@@ -26,7 +26,9 @@ def bounds(tier):
     return ('quick: cover families deep (C: BTree N=6 @2/2 ranges, N=5 @2/2 with full index/slice '
             'probing, N=5 @2/3,3/2, extreme and None universes; Py: N=5 @2/2, N=4 @2/3,3/2 with '
             'index/slice probing), other families N=4 with index/slice probing, leaf kinds N=5/4; '
-            'thorough: all 22 deep, N=7 C / N=6 Py, six more size pairs at N=6')
+            'wide nodes (thinning spaces @2/8 8 keys, 8/2 and 6/6 9 keys; leaves of 8 keys; reduced bound '
+            'pairs, sequences indexed) for OO LQ fs (C) / OO (Py); '
+            'thorough: all 22 deep, N=7 C / N=6 Py, six more size pairs at N=6, wide nodes for all families')
 
 
 def required_guards(tier):
@@ -101,6 +103,23 @@ def jobs(tier):
                                'args': dict(fam=fam, kind=kind, impl=impl, sizes=(2, 2),
                                             n=8 if tier == 'quick' else 9, variant='centred',
                                             level=0 if impl == 'py' else 1, thin=order)})
+    # wide nodes (vt.space.wide_configs): reduced bound pairs (axis_pairs), sequences indexed
+    for fam, kind, impl, sizes, n, var, thin, w in S.wide_configs(tier, bfs=False,
+                                                                   shrink=2 if tier == 'quick' else 1):
+        if tier == 'quick' and impl == 'py' and fam != 'OO':
+            continue
+        js.append({'fn': 'job', 'weight': 6 * w, 'group': '%s/wide' % impl,
+                   'args': dict(fam=fam, kind=kind, impl=impl, sizes=sizes, n=n, variant=var,
+                                level=0 if (impl == 'py' and tier == 'quick') else 1, thin=thin,
+                                axes=True)})
+    for fam in (F.COVER if tier == 'quick' else F.FAMILIES):
+        for impl in F.IMPLS:
+            for kind in ('Bucket', 'Set'):
+                if tier == 'quick' and impl == 'py' and fam not in ('OO', 'IF'):
+                    continue
+                js.append({'fn': 'job', 'weight': 4 if impl == 'c' else 12, 'group': '%s/wide' % impl,
+                           'args': dict(fam=fam, kind=kind, impl=impl, sizes=None, n=8,
+                                        variant='centred', level=0)})
     return js
 
 
@@ -186,8 +205,25 @@ def check_sequence(seq, want, level):
     return n, None
 
 
-def range_monitor(grid, level):
+def axis_pairs(grid):
+    """Reduced set of bound pairs for wide spaces (O(n) instead of O(n^2)): every grid position as
+    lower bound alone, as upper bound alone, against itself, against its two successors, against both
+    ends of the grid, and crossed with its successor."""
+    g = list(grid)
+    out = [(OMIT, OMIT), (None, None), (OMIT, None), (None, OMIT)]
+    for i, b in enumerate(g):
+        out += [(b, OMIT), (OMIT, b), (b, None), (None, b), (b, b), (b, g[-1]), (g[0], b)]
+        for d in (1, 2, 5):
+            if i + d < len(g):
+                out.append((b, g[i + d]))
+        if i + 1 < len(g):
+            out.append((g[i + 1], b))
+    return out
+
+
+def range_monitor(grid, level, axes=False):
     bset = [OMIT, None] + list(grid)
+    pairs = axis_pairs(grid) if axes else [(lo, hi) for lo in bset for hi in bset]
 
     def mon(ex, hist, t, model, c):
         ctx = ex.ctx
@@ -196,8 +232,8 @@ def range_monitor(grid, level):
         meths = _methods(ctx, t)
         n = 0
         g = ex.guards
-        for lo in bset:
-            for hi in bset:
+        for lo, hi in pairs:
+            if True:
                 for exlo in (False, True):
                     for exhi in (False, True):
                         items = model.range_items(None if lo is OMIT else lo,
@@ -262,10 +298,10 @@ def range_monitor(grid, level):
     return mon
 
 
-def job(fam, kind, impl, sizes, n, variant, level=0, thin=None):
+def job(fam, kind, impl, sizes, n, variant, level=0, thin=None, axes=False):
     ex = S.explorer(fam, kind, impl, sizes, n, variant, 'C02', thin=thin)
     ex.base_case['level'] = level
-    ex.state_monitors.append(range_monitor(ex.grid, level if kind in F.TREE_KINDS else 0))
+    ex.state_monitors.append(range_monitor(ex.grid, level if kind in F.TREE_KINDS else 0, axes))
     ex.run()
     probes = ex.guards.pop('probes', 0)
     return S.result(ex, extra_eval=probes)
